@@ -59,7 +59,13 @@ RULE = ("cases = corpus (defect witnesses, hand-written corner cases) + N random
         "C07.fireAllOk / C07.histOk are evaluated on the "
         "implementation's observations. 1 in 6 agenda histories deliberately has equal (salience, created_at) pairs (flag T1): for those "
         "either order is accepted and only the tie-insensitive predicate runOkWeak is required. Non-trivial = at least two activations "
-        "were returned (agenda) / at least one rule fired (engines); distinct = distinct case text.")
+        "were returned (agenda) / at least one rule fired (engines); distinct = distinct case text."
+        " On top come N/10 CALLER-QUEUED ACTIVATION cases (`G`): one IncrementalEngine (2..3 rules of distinct salience, never satisfiable or "
+        "satisfied by the inserted facts) on whose OWN agenda the caller queues activations through engine.agenda_mut().add_activation — "
+        "ungrouped and with an activation group (engine-made activations never carry one), no_loop flag 0/1, with / without a matched fact — "
+        "between inserts, updates, retracts, resets and fire_all calls; oracle clause activation_group_twice (Driver groupBad: per reset "
+        "period, the firings of the rules of one activation group that cannot come from ungrouped activations are at most one) and the model "
+        "prediction (C07.Inc.addAct / fireAllM).")
 TRUSTED = [
     "Lean 4.33 kernel; axioms of every property theorem within {propext, Classical.choice, Quot.sound} (audited each run)",
     "hand-written model RreModel/C07/Model.lean tied to src/rete/agenda.rs, src/rete/propagation.rs (fire_all loop), src/rete/network.rs "
